@@ -23,7 +23,7 @@ for d in ${MATRIX_ONLY:-seeded/M-* seeded/B?}; do
   m=$(basename $d); target=$(python3 -c "import json;print(json.load(open('$d/meta.json')).get('property','benign'))")
   git -C $REPO checkout -q -- . ; git -C $REPO apply $VERIF/$d/patch.diff || { echo -e "$m\t$target\t-\tPATCH-FAILED" >> $out; continue; }
   for p in ${MATRIX_CHECKS:-C01 C02 C03 C04 C05 C06 C07 C08 C09 C10 C11 C12 C13 C14 C15 C16 C17 C18 C19 C20}; do
-    r=$(HS_DEV_SKIP_PROOF=${MATRIX_SKIP_PROOF:-} ./check $p 2>&1 | grep VIOLATION | head -1)
+    r=$(HS_DEV_SKIP_PROOF=${MATRIX_SKIP_PROOF:-} HS_NO_SEARCH=1 ./check $p 2>&1 | grep VIOLATION | head -1)
     if [ -z "$r" ]; then res="quiet"; elif echo "$r" | grep -q no-failing-input-found; then res="ALARM-no-input"; else res="VIOLATION-with-input"; fi
     echo -e "$m\t$target\t$p\t$res" >> $out
   done
